@@ -25,7 +25,7 @@ ASSUMPTIONS = ["pairs are generated compatible per term kind (both with tables, 
                "kind) and for pair coefficients (both or neither)",
                "for kinds where neither side has a table only the type partition is compared (ids disjoint from self's)"]
 
-MODES = ["default", "explicit-offsets", "repeated", "shared-ids"]
+MODES = ["default", "explicit-offsets", "repeated", "shared-ids", "repeated-same-map"]
 
 
 def other_from(spec, tag_base, suffix):
@@ -64,7 +64,7 @@ def enum_cases(tier, seed):
                     maps.append({str(a): b for a, b in zip(keys, vals)})
         for mi, mp in enumerate(maps):
             # rotate through the modes so that every (pair, map) gets at least one and every mode is spread evenly
-            for mode in (MODES if (len(maps) <= 4 or tier == "thorough") else [MODES[mi % 4], MODES[(mi + 1) % 4]]):
+            for mode in (MODES if (len(maps) <= 4 or tier == "thorough") else [MODES[mi % 5], MODES[(mi + 2) % 5]]):
                 cases.append({"self": s, "other": o, "map": mp, "mode": mode, "shapes": [ss, os_]})
     return cases
 
@@ -147,6 +147,13 @@ def oracle(case, stats):
                 a.extend(b, offsets=offs, structure_index_map=dict(mp))
                 b2 = M.build(shifted_copy(o))
                 a.extend(b2, offsets=offs)
+            elif mode == "repeated-same-map":
+                # the caller keeps one map object and passes it to both extensions
+                offs = a.extend_types(b)
+                the_map = dict(mp)
+                a.extend(b, offsets=offs, structure_index_map=the_map)
+                b2 = M.build(shifted_copy(o))
+                a.extend(b2, offsets=offs, structure_index_map=the_map)
             else:
                 a.extend(b, offsets=(0, 0, 0, 0, 0), structure_index_map=dict(mp))
     except Exception as e:
@@ -163,6 +170,9 @@ def oracle(case, stats):
         if mode == "repeated":
             mo2 = tag_untyped(M.model_from_spec(shifted_copy(o)), "other")
             want = M.m_extend(want, mo2, {})
+        if mode == "repeated-same-map":
+            mo2 = tag_untyped(M.model_from_spec(shifted_copy(o)), "other")
+            want = M.m_extend(want, mo2, mp)
     kind_labels = {k: (s["extra_%s_labels" % k], o["extra_%s_labels" % k]) for k in M.KINDS}
     want = M.merge_extra(want, s["extra_atom_labels"], o["extra_atom_labels"], len(ms["atoms"]), list(mp.values()), kind_labels)
     got = M.resolve(a, what)
@@ -177,7 +187,7 @@ def oracle(case, stats):
     stats.count("map-size:%d" % len(mp))
     stats.count("self-atoms:%s" % ("0" if not ms["atoms"] else "1+"))
     nterms_o = sum(len(mo["terms"][k]) for k in M.KINDS)
-    lost = sum(len(ms["terms"][k]) for k in M.KINDS) + nterms_o * (2 if mode == "repeated" else 1) - sum(len(want["terms"][k]) for k in M.KINDS)
+    lost = sum(len(ms["terms"][k]) for k in M.KINDS) + nterms_o * (2 if mode.startswith("repeated") else 1) - sum(len(want["terms"][k]) for k in M.KINDS)
     stats.count("superseded-terms:%s" % (lost > 0))
     if nterms_o >= 1 and (mp or any(ms["terms"][k] and mo["terms"][k] for k in M.KINDS)):
         stats.mark_nontrivial([case.get("shapes"), case["map"], mode, s["charges"], o["charges"], [len(s[k + "s"]) for k in M.KINDS],
@@ -243,7 +253,7 @@ def random_case(draw):
                         s[kind + "_types"].append(s[kind + "_types"][0])
                         if s["extra_%s_labels" % kind]:
                             s["extra_%s_fields" % kind].append(list(s["extra_%s_fields" % kind][0]))
-    return {"self": s, "other": o, "map": mp, "mode": draw(st.sampled_from(MODES[:3]))}
+    return {"self": s, "other": o, "map": mp, "mode": draw(st.sampled_from(["default", "explicit-offsets", "repeated", "repeated-same-map"]))}
 
 
 def random_oracle(case, stats):
